@@ -197,6 +197,9 @@ fn small_values(thorough: bool) -> Vec<RV> {
 
 fn dialect_values(thorough: bool) -> Vec<RV> {
     let mut v = crate::props::c01::v_domain(thorough);
+    // long values with many small compound siblings (what the parser keeps per construct must be
+    // given back between siblings, in every dialect)
+    v.extend(crate::props::c01::long_values());
     for s in str_domain(3) {
         v.push(RV::Str(s));
     }
